@@ -300,8 +300,13 @@ class Check:
             "assumptions": self.assumptions, "wall_s": round(wall, 2),
             "violations": len(self.violations) + (1 if br and not self.violations else 0),
         }
-        os.makedirs(os.path.join(ROOT, "evidence"), exist_ok=True)
-        json.dump(ev, open(os.path.join(ROOT, "evidence", self.prop + ".json"), "w"), indent=1)
+        # evidence/ holds what the checks found on /repo itself; a run against another tree (VERIF_REPO = a scratch
+        # worktree with a seeded change) or a replay must not overwrite it
+        edir = os.path.join(ROOT, "evidence")
+        if os.path.realpath(REPO) != "/repo" or getattr(self, "is_replay", False):
+            edir = os.path.join(BUILD, "evidence-other-tree")
+        os.makedirs(edir, exist_ok=True)
+        json.dump(ev, open(os.path.join(edir, self.prop + ".json"), "w"), indent=1)
         for l in lines:
             print(l, flush=True)
         log("[%s] tier=%s seed=%d obligations %d/%d evaluations=%d nontrivial=%d wall=%.1fs rc=%d" %
